@@ -14,6 +14,7 @@ CONSTANTS
   GenNoFaults = FALSE
   GenHold = 0
   MaxPhantom = 8
+  AddrKinds = {"real"}
 SPECIFICATION Spec
-INVARIANTS TypeOK SlotRange CapacityHonoured ReleasedAtMostOnce ReleasedAtEnd NoEarlyRelease RetNeverBlocks CounterMatches ReportedOK FullCapacityAgain
+INVARIANTS TypeOK SlotRange CapacityHonoured ReleasedAtMostOnce ReleasedAtEnd NoEarlyRelease RetNeverBlocks CounterMatches ReportedOK FullCapacityAgain ToldAddrRight
 CHECK_DEADLOCK FALSE
